@@ -81,6 +81,10 @@ skipp(__skipspec_t ss, struct dt_dt_s dt)
 	}
 	/* month/year steps keep the day-of-month unclamped (2012-02-31),
 	 * the weekday is the one of the date that gets printed */
+	if (dt.typ == DT_SEXY) {
+		/* epoch values carry no date part to ask */
+		dt = dt_dtconv((dt_dttyp_t)DT_DAISY, dt);
+	}
 	dow = dt_get_wday(dt_fixup(dt).d);
 	/* just check if the bit in the bitset `skip' is set */
 	return (ss & (1 << dow)) != 0;
